@@ -62,29 +62,60 @@ def compile_cases(cases, cfg, d, extra_prelude=''):
     raise RuntimeError('compile failure loop did not converge')
 
 
+def _pool_worker(task_q, res_q, ll, good, opts):
+    runner._init_worker(ll, good, opts)
+    while True:
+        i = task_q.get()
+        if i is None: return
+        res_q.put(('start', i, os.getpid()))
+        r = runner.run_case_worker(i)
+        res_q.put(('done', i, r))
+
+
 def pool_run(ids, nj, ll, good, opts):
-    """process pool that survives a crashing worker (solver segfault): unfinished cases are re-run one per fresh process"""
-    from concurrent.futures import ProcessPoolExecutor, as_completed
-    from concurrent.futures.process import BrokenProcessPool
-    ctx = mp.get_context('fork'); done = {}
-    def run(some, workers):
-        try:
-            with ProcessPoolExecutor(workers, mp_context=ctx, initializer=runner._init_worker, initargs=(ll, good, opts)) as ex:
-                futs = {ex.submit(runner.run_case_worker, i): i for i in some}
-                for f in as_completed(futs):
-                    try: done[futs[f]] = f.result()
-                    except BrokenProcessPool: pass
-                    except Exception as e: done[futs[f]] = {'id': futs[f], 'status': 'error', 'error': repr(e)[:300]}
-        except BrokenProcessPool:
-            pass
-    byid = {c.id: c for c in good}
+    """own process pool: a worker stuck inside a solver call (z3 does not always honour its timeout) or crashed is killed by
+    the parent after the case's wall budget and replaced; the case is reported inconclusive, never passed"""
+    import queue as _q
+    ctx = mp.get_context('fork'); byid = {c.id: c for c in good}
     order = sorted(ids, key=lambda i: -getattr(byid[i], 'weight', 1))     # expected-heavy cases first (better tail packing)
-    run(order, nj)
-    left = [i for i in ids if i not in done]
-    if left and len(left) > 4: run(left, max(2, nj // 2)); left = [i for i in ids if i not in done]
-    for i in left:
-        run([i], 1)
-        if i not in done: done[i] = {'id': i, 'status': 'inconclusive', 'error': 'worker process died (solver crash) on this case', 'steps': 0}
+    task_q = ctx.Queue(); res_q = ctx.Queue()
+    for i in order: task_q.put(i)
+    procs = {}
+    def spawn():
+        p = ctx.Process(target=_pool_worker, args=(task_q, res_q, ll, good, opts), daemon=True); p.start(); procs[p.pid] = p
+    for _ in range(nj): spawn()
+    done = {}; running = {}    # pid -> (case id, t0)
+    grace = 45
+    while len(done) < len(ids):
+        try:
+            kind, i, payload = res_q.get(timeout=2.0)
+            if kind == 'start': running[payload] = (i, time.time())
+            else:
+                done[i] = payload
+                for pid, (ci, _) in list(running.items()):
+                    if ci == i: del running[pid]
+        except _q.Empty:
+            pass
+        now = time.time()
+        for pid, (ci, t0) in list(running.items()):
+            p = procs.get(pid)
+            budget = int(getattr(byid[ci], 'budget', opts.get('case_budget', 150)))
+            dead = p is None or not p.is_alive()
+            if dead or now - t0 > budget + grace:
+                if not dead:
+                    p.kill(); p.join(5)
+                if ci not in done:
+                    done[ci] = {'id': ci, 'status': 'inconclusive', 'steps': 0, 'wall': now - t0,
+                                'error': ('worker process died (solver crash)' if dead else f'killed after {int(now - t0)}s: stuck in a solver call beyond the case budget of {budget}s')}
+                del running[pid]; procs.pop(pid, None)
+                if len(done) < len(ids): spawn()
+        # all workers gone but tasks left (should not happen)
+        if not any(p.is_alive() for p in procs.values()) and len(done) < len(ids):
+            spawn()
+    for _ in procs: task_q.put(None)
+    for p in procs.values():
+        p.join(2)
+        if p.is_alive(): p.kill()
     return [done[i] for i in ids]
 
 
